@@ -100,6 +100,8 @@ type State struct {
 	closures map[string]*Closure
 	nonnil   map[string]bool
 	once     map[string]bool
+	fullMod  map[string]bool // heap arrays written at objects that existed on entry
+	fresh    map[string]bool // refs allocated on this path
 }
 
 type OwnedState struct {
@@ -133,6 +135,14 @@ func (st *State) Clone() *State {
 	}
 	for k, v := range st.once {
 		n.once[k] = v
+	}
+	n.fullMod = make(map[string]bool, len(st.fullMod))
+	for k, v := range st.fullMod {
+		n.fullMod[k] = v
+	}
+	n.fresh = make(map[string]bool, len(st.fresh))
+	for k, v := range st.fresh {
+		n.fresh[k] = v
 	}
 	n.assume = append([]string(nil), st.assume...)
 	n.decls = append([]string(nil), st.decls...)
@@ -228,12 +238,36 @@ func (x *Exec) heapEntry(st *State, name string) *Term {
 
 func (x *Exec) heapSet(st *State, name string, t *Term) { st.heap[name] = t }
 
-func (x *Exec) heapHavoc(st *State, name string) {
+// heapStoreAt: write at index ref, remembering whether a pre-existing object was touched
+func (x *Exec) heapStoreAt(st *State, name string, ref, v *Term) {
+	h := x.heapGet(st, name)
+	st.heap[name] = sto(h, ref, v)
+	if !st.fresh[ref.S] {
+		if st.fullMod == nil {
+			st.fullMod = map[string]bool{}
+		}
+		st.fullMod[name] = true
+	}
+}
+
+// heapHavoc: full = objects that existed before may have changed; otherwise only objects allocated since `since`
+func (x *Exec) heapHavoc(st *State, name string, full bool, since *Term) {
 	if _, ok := x.reg.heap[name]; !ok {
 		return
 	}
-	x.heapGet(st, name) // make sure entry version is recorded
-	st.heap[name] = st.Fresh(strings.ReplaceAll(name, "@", "_"), x.reg.HeapSort(name))
+	old := x.heapGet(st, name) // make sure entry version is recorded
+	nv := st.Fresh(strings.ReplaceAll(name, "@", "_"), x.reg.HeapSort(name))
+	st.heap[name] = nv
+	if full {
+		if st.fullMod == nil {
+			st.fullMod = map[string]bool{}
+		}
+		st.fullMod[name] = true
+		return
+	}
+	es := x.reg.heap[name][1]
+	st.Assume(mk("Bool", "(forall ((r Int)) (! (=> (<= r "+since.S+") (= (select "+nv.S+" r) (select "+old.S+" r))) :pattern ((select "+nv.S+" r))))"))
+	_ = es
 }
 
 func sel(arr, idx *Term, elemSort string) *Term {
@@ -247,5 +281,9 @@ func (x *Exec) newRef(st *State, hint string) *Term {
 	r := st.Fresh("ref_"+hint, "Int")
 	st.Assume(Lt(st.allocCtr, r))
 	st.allocCtr = r
+	if st.fresh == nil {
+		st.fresh = map[string]bool{}
+	}
+	st.fresh[r.S] = true
 	return r
 }
